@@ -445,10 +445,21 @@ def mon_c17(h, obs):
             ch, _, who = t[6:].partition("=")
             owners[ch] = who
     role_status = {}         # account -> status of its role record as last read back (`q obj role @x`)
+    before_logout = {}       # account -> status it had when its logout was requested
     for i, st in enumerate(steps):
         if st[0] == "q" and st[1] == "obj" and st[2] == "role" and len(st[4]) > 3:
             m = re.search(r"status=(\S+)", st[3] or "")
-            role_status[st[4][3].lstrip("@")] = m.group(1) if m else "none"
+            acc, new = st[4][3].lstrip("@"), (m.group(1) if m else "none")
+            old = role_status.get(acc)
+            if new == "logouting" and old not in (None, "logouting"):
+                before_logout[acc] = old
+            # R7: a logout request that is voted down or taken back gives nobody administrator rights he did not have: the role
+            # returns to the status it had (an approved one ends in forbidden)
+            if old == "logouting" and new in ("available", "freezing") and before_logout.get(acc) not in (None, "available", "freezing"):
+                hits.append(Hit("C17/unavailable-admin-made-available-by-withdrawn-logout",
+                                f"the role of {acc} was {before_logout[acc]} when its logout was requested; the request was voted down / taken back and the role is now {new}: the account has the rights of an available administrator again",
+                                detail=" ".join(st[4])))
+            role_status[acc] = new
             continue
         if st[0] != "block" or not st[1].ok:
             continue
